@@ -829,9 +829,7 @@ def extract_all_linear_coefficients(
     if isinstance(expr, LinearCombination) and isinstance(expr.vector, VectorVariable):
         vec_n = len(expr.vector._variables)
         if vec_n == n:
-            first_var = expr.vector._variables[0]
-            first_idx = var_index.get(first_var.name, -1)
-            if first_idx == 0:
+            if _in_column_order(expr.vector._variables, var_index):
                 # Variables in order, return coefficients directly
                 return np.asarray(expr.coefficients, dtype=np.float64).copy()
 
@@ -845,6 +843,11 @@ def extract_all_linear_coefficients(
     result = np.zeros(n, dtype=np.float64)
     _extract_all_coefficients_impl(expr, var_index, result, 1.0)
     return result
+
+
+def _in_column_order(variables: Sequence[Variable], var_index: dict[str, int]) -> bool:
+    """True when variable k of the vector sits in column k, for every k."""
+    return all(var_index.get(v.name, -1) == k for k, v in enumerate(variables))
 
 
 def _try_extract_fast_binop(
@@ -877,9 +880,9 @@ def _try_extract_fast_binop(
         ):
             vec_n = len(expr.left.vector._variables)
             if vec_n == n:
-                first_var = expr.left.vector._variables[0]
-                first_idx = var_index.get(first_var.name, -1)
-                if first_idx == 0 and isinstance(expr.right, (Constant, int, float)):
+                if _in_column_order(
+                    expr.left.vector._variables, var_index
+                ) and isinstance(expr.right, (Constant, int, float)):
                     return np.asarray(expr.left.coefficients, dtype=np.float64).copy()
 
     # Handle: constant * VectorSum, VectorSum * constant
